@@ -225,6 +225,21 @@ def _coq_build(target_v):
     coq_build.closure = getattr(coq_build, "closure", set()) | set(order)
     log = ""
     rebuilt = set()
+    # cold start (fresh restore: no .vo files): build the dependency closure with a parallel make first
+    missing = [v for v in order if v != target_v and not os.path.exists(os.path.join(COQ, v + "o"))]
+    if len(missing) >= 6:
+        mkname = "MkClosure%d" % os.getpid()      # coq_makefile wants its output in the cwd
+        mk = os.path.join(COQ, mkname)
+        proj = mk + ".project"
+        # (everything but the property statement files, so that the checks of the other properties, which
+        # may be waiting for the lock, find their dependencies built)
+        allv = [v for v in files if not v.startswith("Properties/") and not v.startswith("Extract/")]
+        open(proj, "w").write("-Q . UV\n" + "\n".join(allv) + "\n")
+        sh(["coq_makefile", "-f", mkname + ".project", "-o", mkname], cwd=COQ)   # (relative paths only)
+        sh(["timeout", "3000", "make", "-f", mkname, "-k", "-j16", "COQC=timeout 1800 coqc"], cwd=COQ)
+        for f in (mk, mk + ".conf", proj, os.path.join(COQ, "." + mkname + ".d")):
+            if os.path.exists(f):
+                os.remove(f)
     for v in order:
         vo = os.path.join(COQ, v + "o")
         src = os.path.join(COQ, v)
